@@ -518,32 +518,46 @@ impl Sut for V {
             // position a cursor over the same plaintext would be at
             let mut mpos: u64 = 0;
             for op in ops {
-                let r = match op {
-                    LOp::SeekStart { p } => {
-                        mpos = *p;
-                        s.seek(SeekFrom::Start(*p)).map(LRes::Pos).unwrap_or_else(|e| LRes::Err(es(e)))
-                    }
-                    LOp::SeekCurTo { p } => {
-                        let d = (*p as i64).wrapping_sub(mpos as i64);
-                        mpos = *p;
-                        s.seek(SeekFrom::Current(d)).map(LRes::Pos).unwrap_or_else(|e| LRes::Err(es(e)))
-                    }
-                    LOp::SeekCur0 => s.seek(SeekFrom::Current(0)).map(LRes::Pos).unwrap_or_else(|e| LRes::Err(es(e))),
-                    LOp::SeekEndTo { p } => {
-                        mpos = *p;
-                        s.seek(SeekFrom::End((*p as i64).wrapping_sub(len as i64))).map(LRes::Pos).unwrap_or_else(|e| LRes::Err(es(e)))
-                    }
-                    LOp::Pos => s.stream_position().map(LRes::Pos).unwrap_or_else(|e| LRes::Err(es(e))),
-                    LOp::Read { n } => {
-                        let mut buf = vec![0u8; *n];
-                        match s.read(&mut buf) {
-                            Ok(k) => {
+                // a call refused with `Interrupted` (only under a source that interrupts) is made again, as the io
+                // traits ask: a read as it was, a seek as an absolute seek to the same target
+                let mut again = 0u32;
+                let r = loop {
+                    let before = mpos;
+                    let res: std::io::Result<LRes> = match op {
+                        LOp::SeekStart { p } => {
+                            mpos = *p;
+                            s.seek(SeekFrom::Start(*p)).map(LRes::Pos)
+                        }
+                        LOp::SeekCurTo { p } if again == 0 => {
+                            let d = (*p as i64).wrapping_sub(mpos as i64);
+                            mpos = *p;
+                            s.seek(SeekFrom::Current(d)).map(LRes::Pos)
+                        }
+                        LOp::SeekEndTo { p } if again == 0 => {
+                            mpos = *p;
+                            s.seek(SeekFrom::End((*p as i64).wrapping_sub(len as i64))).map(LRes::Pos)
+                        }
+                        LOp::SeekCurTo { p } | LOp::SeekEndTo { p } => s.seek(SeekFrom::Start(*p)).map(LRes::Pos),
+                        LOp::SeekCur0 => s.seek(SeekFrom::Current(0)).map(LRes::Pos),
+                        LOp::Pos => s.stream_position().map(LRes::Pos),
+                        LOp::Read { n } => {
+                            let mut buf = vec![0u8; *n];
+                            s.read(&mut buf).map(|k| {
                                 buf.truncate(k);
                                 mpos = mpos.saturating_add(k as u64);
                                 LRes::Bytes(buf)
-                            }
-                            Err(e) => LRes::Err(es(e)),
+                            })
                         }
+                    };
+                    match res {
+                        Ok(r) => break r,
+                        Err(e) if e.kind() == std::io::ErrorKind::Interrupted && again < 500 => {
+                            again += 1;
+                            if matches!(op, LOp::Read { .. } | LOp::SeekCur0 | LOp::Pos) {
+                                mpos = before;
+                            }
+                        }
+                        Err(e) => break LRes::Err(es(e)),
                     }
                 };
                 out.results.push(r);
